@@ -115,7 +115,7 @@ func lifeAlpha(o AlphaOpts) func(sc *Scenario, v *View) []Action {
 		out = append(out, o.BindOps...)
 		for _, ps := range o.ParamChanges {
 			p := ps
-			if v.Params.MaxRequestTimeout == p.MaxTimeout && v.Params.ServiceFeeTax.String() == sdk.MustNewDecFromStr(p.Tax).String() {
+			if v.Params.MaxRequestTimeout == p.MaxTimeout && v.Params.ServiceFeeTax.Equal(sdk.MustNewDecFromStr(p.Tax)) && v.Params.SlashFraction.Equal(sdk.MustNewDecFromStr(p.Slash)) {
 				continue // already in force
 			}
 			out = append(out, Action{Name: "gov(" + p.Name + ")", Kind: "gov", Tmpl: -1, Signer: XX,
